@@ -18,7 +18,7 @@ Local Open Scope R_scope.
 Example C08_cfg_ok_inhabited : cfg_ok cfg_default.
 Proof. exact cfg_default_ok. Qed.
 
-(** 1. Parameters.  After t updates the model holds t+1 (mean, precision) pairs; entry k
+(** 1. Conjugate tables.  After t updates the model holds t+1 (mean, precision) pairs; entry k
     (k = 0..t; entry 0 is the prior) is the conjugate posterior given the k NEWEST values:
     precision 1/v0 + k/s2 and mean (m0/v0 + sum of those k values / s2) / precision. *)
 Theorem C08_params : forall (c : bocd_cfg RealA) (vs : list R), cfg_ok c ->
